@@ -9,6 +9,7 @@ strconv's shortest-digit generation and ParseFloat's correct rounding are parame
 -/
 import JsonV.Lemmas.NumInt
 import JsonV.Lemmas.NumGrammar
+import JsonV.Lemmas.NumDenote
 
 namespace JsonV.Props.C10
 open JsonV JsonV.Model.Number JsonV.Spec.Ecma
@@ -200,8 +201,20 @@ theorem float_is_number (neg : Bool) (ds : List Nat) (n : Int) (h : WFD ds n) :
 /-- Printed integers are JSON numbers that the integer unmarshalers accept: `formatInt` yields integer literals. -/
 theorem int_is_literal (i : Int) : isIntLit (formatInt i) = true ∧ intVal (formatInt i) = i := formatInt_lit i
 
-/-- NOT PROVED (validated by the harness): the layout denotes exactly `± 0.d₁…d_k × 10^n`. -/
-def float_denotes_full : Prop := ∀ (neg : Bool) (ds : List Nat) (n : Int), WFD ds n → ds ≠ [] →
-    (decimalValue (appendFloat neg ds n)).same ⟨neg, digitsVal ds, n - ds.length⟩
+/-- The layout loses nothing: read back as a decimal, the text denotes exactly `(−1)^neg × d₁…d_k × 10^(n−k)`
+(= ±0.d₁…d_k × 10^n); zero is `±0`. -/
+theorem float_denotes (neg : Bool) (ds : List Nat) (n : Int) (h : WFD ds n) :
+    (decimalValue (appendFloat neg ds n)).same ⟨neg, digitsVal ds, n - ds.length⟩ := by
+  rw [float_layout neg ds n h]
+  by_cases hne : ds = []
+  · subst hne
+    rw [h.2.2.1 rfl, JsonV.Lemmas.NumDenote.zero_denotes]
+    exact JsonV.Lemmas.NumDenote.Dec.same_refl _
+  · exact JsonV.Lemmas.NumDenote.numberToString_denotes neg ds n h hne
+
+/- Not stated here because they are properties of strconv, which is a parameter of the model (see meta/C10.json):
+that the shortest decomposition of every finite float is well formed (`WFD`), that ParseFloat maps the text back
+to the same bits, and that no shorter digit string does.  harness/c10.go checks all three on the implementation
+(thorough tier: every float32). -/
 
 end JsonV.Props.C10
